@@ -24,8 +24,10 @@ func runC19(c *Ctx) {
 	r.Doc("G2b", "after the first user-visible signal only non-blocking deferred calls run; the entry does nothing after its defers", 7)
 	r.Doc("G3", "children joined before the first signal (v1) or bound to a channel the parent closes (v2)", 5)
 	r.Doc("G4", "every CFG cycle of every goroutine has an exit edge; child loops leave on the parent's termination", 10)
+	r.Doc("G5", "sending the error never keeps the goroutine alive: err channel capacity >= 1, at most one send", 3)
 	for _, p := range []*Prog{c.V1, c.V2} {
 		c19prog(c, p)
+		errChannelNonBlocking(c, p, "G5")
 	}
 }
 
